@@ -378,4 +378,13 @@ impl FileTransferPlugin {
 //@|        save_post(*old(file_transfer), old(vx_fs), final(vx_fs), *path), // O:save.fs (at most one write: of a complete transfer's bytes, to a path directly in the configured directory that did not exist)
 //@ end
 }
+
+// ---------- update_state: what is moved into the store the manual `save` command writes from ----------
+// the selection closure of `self.transfers.iter_mut().enumerate().filter(|(_, t)| ..).collect()`: only a transfer that is Complete (and
+// still holds its bytes) hands them to `completed_transfers` - an incomplete transfer can never be saved through the command
+//@ extract src/plugins/file_transfer.rs closure FileTransferPlugin::update_state#1
+//@   sig pub fn update_state_selects(t: &FileTransfer) -> (r: bool)
+//@   spec
+//@|    ensures r == (t.file_data@.len() > 0 && t.state == FileTransferState::Complete), // O:save.store_complete_only
+//@ end
 // ---- end of units/ftplugin/part.rs ----
